@@ -215,6 +215,8 @@ class PathState:
             via_otherwise = (t['otherwise'] == next_block)
             ds = strip(d)
             key = repr(ds[1]) if (ds[0] == 'discr' and _pure_place(ds[1])) else None
+            if key is None and _pure_place(ds) and t.get('discr_ty') == 'bool':
+                key = 'bool:' + repr(ds)     # a boolean parameter / field of a parameter tested again on the same path
             prev = self.discr_facts.get(key) if key else None
             known = self.known_discr(d)
             if known is None and prev is not None and prev[0] == 'eq':
